@@ -123,6 +123,9 @@ Proof.
   - cbn [fst]. apply q_remove_inv. exact HQ.
   - destruct (q_insert cfg q k v) eqn:E; cbn [fst]; [eapply q_insert_inv; eassumption|exact HQ].
   - cbn [fst]. apply q_remove_inv. exact HQ.
+  - entry_case HQ.
+    + destruct (nth_error q i) as [kv|]; cbn [fst]; [|exact HQ]. eapply q_insert_inv; [exact Hasc|exact Hksp|exact HQ|]. apply (set_branch q k _ m i Ec Es).
+    + cbn [fst]. eapply q_insert_inv; [exact Hasc|exact Hksp|exact HQ|]. apply (insert_branch q k v m i Ec Es).
 Qed.
 Theorem qxrun_inv ops : forall q, QInv cfg q -> QInv cfg (fst (qxrun cfg q ops)).
 Proof.
@@ -295,6 +298,8 @@ Proof.
     + destruct (insert_valid_ok q k v Hv) as [q' ->]. discriminate.
     + intros _. right. right. exists k, v. split; [reflexivity|exact Hv].
   - discriminate.
+  - destruct (check_key cfg k) as [m|] eqn:Ec; [|discriminate]. destruct (search cfg q m) as [i|i] eqn:Es; [|discriminate].
+    destruct (found_nth q k m i HQ Ec Es) as [kv ->]. discriminate.
 Qed.
 (* GenericPurlBuilder: no call panics, except the documented one: a typed qualifier whose declared KEY is not a valid key *)
 Theorem xstep_never_panics {T} (b : T * parts) o : xstep cfg b o = Err StopPanic -> exists k v, o = XTyped k v /\ valid_key cfg k = false.
